@@ -512,6 +512,259 @@ def reaching_def(name: str, at: ast.AST, fnode: ast.AST) -> Optional[ast.AST]:
     return None
 
 
+def parents(n: ast.AST, stop: Optional[ast.AST] = None):
+    """Ancestors of ``n`` (nearest first) up to, not including, ``stop``."""
+    p = getattr(n, "parent", None)
+    while p is not None and p is not stop:
+        yield p
+        p = getattr(p, "parent", None)
+
+
+def _must_assign(stmts: List[ast.stmt], name: str) -> bool:
+    """Does every normally completing path through ``stmts`` assign ``name``?"""
+    for s in stmts:
+        if isinstance(s, (ast.Assign, ast.AnnAssign)):
+            ts = s.targets if isinstance(s, ast.Assign) else [s.target]
+            if getattr(s, "value", None) is not None and \
+                    any(isinstance(x, ast.Name) and x.id == name for t in ts for x in ast.walk(t)):
+                return True
+        elif isinstance(s, ast.If):
+            if s.orelse and _must_assign(s.body, name) and _must_assign(s.orelse, name):
+                return True
+        elif isinstance(s, (ast.With, ast.Try)):
+            if _must_assign(s.body, name):
+                return True
+        if always_exits([s]):
+            return True     # no path completes normally beyond this point
+    return False
+
+
+def _defs_in(stmts, name: str) -> List[Tuple[ast.stmt, Optional[ast.AST]]]:
+    out: List[Tuple[ast.stmt, Optional[ast.AST]]] = []
+    for s in stmts:
+        for x in ast.walk(s):
+            if isinstance(x, (ast.FunctionDef, ast.Lambda)):
+                continue
+            if isinstance(x, ast.Assign):
+                for t in x.targets:
+                    if isinstance(t, ast.Name) and t.id == name:
+                        out.append((x, x.value))
+                    elif any(isinstance(y, ast.Name) and y.id == name and isinstance(y.ctx, ast.Store)
+                             for y in ast.walk(t)):
+                        out.append((x, None))
+            elif isinstance(x, ast.AnnAssign) and isinstance(x.target, ast.Name) and x.target.id == name \
+                    and x.value is not None:
+                out.append((x, x.value))
+            elif isinstance(x, ast.AugAssign) and isinstance(x.target, ast.Name) and x.target.id == name:
+                out.append((x, None))
+            elif isinstance(x, (ast.For, ast.comprehension)) and \
+                    any(isinstance(y, ast.Name) and y.id == name for y in ast.walk(x.target)):
+                out.append((x, None))   # type: ignore[arg-type]
+            elif isinstance(x, ast.NamedExpr) and x.target.id == name:
+                out.append((x, x.value))  # type: ignore[arg-type]
+    return out
+
+
+def reaching_defs(name: str, at: ast.AST, fnode: ast.AST) -> List[Tuple[ast.AST, Optional[ast.AST]]]:
+    """May-reach definitions of local ``name`` at ``at``: (statement, value or
+    None when the definition is not a plain assignment).  A parameter that
+    may still hold its incoming value is reported as (fnode.args, None)."""
+    out: List[Tuple[ast.AST, Optional[ast.AST]]] = []
+    stmt = at
+    while not isinstance(stmt, ast.stmt):
+        stmt = stmt.parent
+    killed = False
+    while stmt is not None and stmt is not fnode and not killed:
+        p, fld, lst = block_of(stmt)
+        idx = next((i for i, s in enumerate(lst) if s is stmt), 0)
+        for s in reversed(lst[:idx]):
+            out.extend(_defs_in([s], name))
+            if _must_assign([s], name):
+                killed = True
+                break
+        if killed:
+            break
+        if isinstance(p, (ast.For, ast.While)) and fld == "body":
+            # back edge: anything assigned in the body may reach the next iteration
+            for d in _defs_in(p.body, name):
+                if not any(d[0] is o[0] for o in out):
+                    out.append(d)
+            if isinstance(p, ast.For) and any(isinstance(x, ast.Name) and x.id == name
+                                               for x in ast.walk(p.target)):
+                out.append((p, None))
+                killed = True
+                break
+        stmt = p if isinstance(p, ast.stmt) else None
+    if not killed:
+        a = fnode.args
+        params = [x.arg for x in a.posonlyargs + a.args + a.kwonlyargs]
+        if name in params:
+            out.append((a, None))
+    return out
+
+
+def link_parents(tree: ast.AST) -> ast.AST:
+    """Attach .parent links to a free-standing tree (fixtures)."""
+    tree.parent = None  # type: ignore[attr-defined]
+    for node in ast.walk(tree):
+        for child in ast.iter_child_nodes(node):
+            child.parent = node  # type: ignore[attr-defined]
+    return tree
+
+
+def coarse_dedup_skips(fnode: ast.AST) -> List[Tuple[ast.AST, ast.For, str]]:
+    """``if K in S: continue`` (or the work nested under ``K not in S``) inside a
+    ``for`` loop, where S is a local collection the same loop fills with K and
+    K does not depend on that loop's element: after the first element every
+    other one is skipped whatever it is.  Returns (test, loop, text of K)."""
+    out: List[Tuple[ast.AST, ast.For, str]] = []
+    for lp in [n for n in _walk_same_function(fnode) if isinstance(n, ast.For)]:
+        tvars = {x.id for x in ast.walk(lp.target) if isinstance(x, ast.Name)}
+        # locals computed inside the loop body from its element
+        body_defs: Dict[str, List[ast.AST]] = {}
+        for s_ in lp.body:
+            for x in ast.walk(s_):
+                if isinstance(x, ast.Assign) and len(x.targets) == 1 and isinstance(x.targets[0], ast.Name):
+                    body_defs.setdefault(x.targets[0].id, []).append(x.value)
+                elif isinstance(x, (ast.For, ast.comprehension)):
+                    for y in ast.walk(x.target):
+                        if isinstance(y, ast.Name):
+                            body_defs.setdefault(y.id, []).append(x.iter)
+
+        def depends(e: ast.AST, seen: Set[str]) -> bool:
+            for nm in load_names(e):
+                if nm in tvars:
+                    return True
+                if nm in body_defs and nm not in seen:
+                    seen.add(nm)
+                    if any(depends(v, seen) for v in body_defs[nm]):
+                        return True
+            return False
+        inner_loops = [n for s_ in lp.body for n in ast.walk(s_) if isinstance(n, ast.For)]
+        for s_ in lp.body:
+            for t in ast.walk(s_):
+                if not (isinstance(t, ast.Compare) and len(t.ops) == 1 and
+                        isinstance(t.ops[0], (ast.In, ast.NotIn)) and isinstance(t.comparators[0], ast.Name)):
+                    continue
+                if any(any(y is t for y in ast.walk(il)) for il in inner_loops):
+                    continue        # belongs to an inner loop: judged there
+                sname = t.comparators[0].id
+                key = ast.unparse(t.left)
+                fills = [c for b_ in lp.body for c in ast.walk(b_) if isinstance(c, ast.Call) and
+                         isinstance(c.func, ast.Attribute) and c.func.attr in ("add", "append") and
+                         isinstance(c.func.value, ast.Name) and c.func.value.id == sname and c.args and
+                         ast.unparse(c.args[0]) == key]
+                if not fills:
+                    continue
+                # the test decides a skip: it is the test of an if statement in the loop
+                par = getattr(t, "parent", None)
+                while par is not None and not isinstance(par, ast.stmt):
+                    par = getattr(par, "parent", None)
+                if not isinstance(par, ast.If):
+                    continue
+                if not depends(t.left, set()):
+                    out.append((t, lp, key))
+    return out
+
+
+def leftover_uses(fnode: ast.AST) -> List[Tuple[ast.Name, ast.For, str]]:
+    """Reads, after a ``for`` loop has finished, of a name that only that loop
+    assigns (its target or a local of its body): the value is whatever the
+    last iteration left behind (or unbound when the collection is empty).
+
+    Not reported: search loops (containing ``break``: what was found is meant
+    to be used afterwards) and reads guarded by a test that bounds the loop's
+    collection to a single element (``len(<iter>) == 1`` / not ``> 1``).
+    Returns (the read, the loop, the name)."""
+    a = fnode.args
+    params = {x.arg for x in a.posonlyargs + a.args + a.kwonlyargs}
+    if a.vararg:
+        params.add(a.vararg.arg)
+    if a.kwarg:
+        params.add(a.kwarg.arg)
+    out: List[Tuple[ast.Name, ast.For, str]] = []
+    nodes = [n for n in ast.walk(fnode) if not isinstance(n, ast.Lambda)]
+    loops = [n for n in _walk_same_function(fnode) if isinstance(n, ast.For)]
+    comps = (ast.ListComp, ast.SetComp, ast.DictComp, ast.GeneratorExp)
+    stores = [x for x in _walk_same_function(fnode) if isinstance(x, ast.Name) and isinstance(x.ctx, ast.Store)
+              and not any(isinstance(p_, comps) for p_ in parents(x, fnode))]
+    for lp in loops:
+        if any(isinstance(x, ast.Break) for x in ast.walk(lp)):
+            continue
+        inner = {x.id for x in ast.walk(lp) if isinstance(x, ast.Name) and isinstance(x.ctx, ast.Store)}
+        # comprehension variables are scoped to the comprehension
+        comp = {y.id for c in ast.walk(lp) if isinstance(c, ast.comprehension)
+                for y in ast.walk(c.target) if isinstance(y, ast.Name)}
+        direct = {x.id for x in ast.walk(lp) if isinstance(x, ast.Name) and isinstance(x.ctx, ast.Store) and
+                  not any(isinstance(p_, (ast.ListComp, ast.SetComp, ast.DictComp, ast.GeneratorExp))
+                          for p_ in parents(x, lp))}
+        inner = direct
+        outside = {x.id for x in stores if not any(p_ is lp for p_ in parents(x, fnode))}
+        only = inner - outside - params
+        if not only:
+            continue
+        for x in _walk_same_function(fnode):
+            if not (isinstance(x, ast.Name) and isinstance(x.ctx, ast.Load) and x.id in only):
+                continue
+            if any(p_ is lp for p_ in parents(x, fnode)):
+                continue
+            if (x.lineno, x.col_offset) <= (lp.lineno, lp.col_offset):
+                continue
+            # inside a comprehension that rebinds the name
+            if any(isinstance(p_, (ast.ListComp, ast.SetComp, ast.DictComp, ast.GeneratorExp)) and
+                   any(isinstance(y, ast.Name) and y.id == x.id for g in p_.generators for y in ast.walk(g.target))
+                   for p_ in parents(x, fnode)):
+                continue
+            # the read must be reachable from the loop's end: same block or a later sibling of an ancestor
+            if not _follows(lp, x, fnode):
+                continue
+            it = norm_text(lp.iter)
+            single = False
+            for t, pol in guards(x, stop=fnode):
+                for at_, p_ in conjuncts(t, pol):
+                    txt = norm_text(at_)
+                    if (txt == "len(%s) > 1" % it and not p_) or (txt == "len(%s) == 1" % it and p_) or \
+                            (txt == "len(%s) != 1" % it and not p_):
+                        single = True
+            if not single:
+                out.append((x, lp, x.id))
+    return out
+
+
+def _walk_same_function(fnode: ast.AST):
+    stack = list(ast.iter_child_nodes(fnode))
+    while stack:
+        n = stack.pop()
+        if isinstance(n, (ast.FunctionDef, ast.AsyncFunctionDef, ast.ClassDef, ast.Lambda)):
+            continue
+        yield n
+        stack.extend(ast.iter_child_nodes(n))
+
+
+def norm_text(e: ast.AST) -> str:
+    return ast.unparse(e)
+
+
+def _follows(lp: ast.AST, x: ast.AST, fnode: ast.AST) -> bool:
+    """x lies in a statement that comes after lp in lp's block or in the block
+    of one of lp's ancestors (so control can flow from the end of lp to x)."""
+    cur: Optional[ast.AST] = lp
+    while cur is not None and cur is not fnode:
+        p, fld, lst = block_of(cur)   # type: ignore[arg-type]
+        idx = next((i for i, s_ in enumerate(lst) if s_ is cur), None)
+        if idx is not None:
+            for s_ in lst[idx + 1:]:
+                if any(y is x for y in ast.walk(s_)):
+                    return True
+        # loops: a later iteration of an enclosing loop also follows
+        if isinstance(p, (ast.For, ast.While)) and fld == "body":
+            if any(y is x for s_ in p.body for y in ast.walk(s_)) and not any(y is x for y in ast.walk(lp)):
+                # before lp in the enclosing loop's body: reached on the next iteration
+                return True
+        cur = p if isinstance(p, ast.stmt) else None
+    return False
+
+
 def resolve_flow(e: ast.AST, at: ast.AST, fnode: ast.AST, depth: int = 8) -> ast.AST:
     """Replace names in ``e`` by their reaching definitions at ``at`` (flow-sensitive)."""
     class R(ast.NodeTransformer):
